@@ -337,7 +337,9 @@ Inductive action :=
 | ASetStatus (n : Z)
 | AHeader (k : bytes) (vs : list bytes)  (* r.ResponseHeader()[k] = vs *)
 | ATokenEvent (v : hval)
-| AW (w : waction).
+| AW (w : waction)
+| ASetStatusIfHTTP (n : Z)                      (* if r.IsHTTP() { r.SetResponseStatus(n) } *)
+| AHeaderIfHTTP (k : bytes) (vs : list bytes).  (* if r.IsHTTP() { r.ResponseHeader()[k] = vs } *)
 
 Definition reply_pub (r : req) (p : payload) : pubmsg := Pub (rreply r) p (CReply (rhttp r) (rreply r)).
 Definition st_meta (st : rst) : option json := meta_json (status st) (rheader st).
@@ -402,6 +404,14 @@ Definition step (c : cfg) (r : req) (st : rst) (a : action) : sres :=
             | EOk out => SCont st out
             | EPanic p => SPanic p
             end
+  | ASetStatusIfHTTP n =>
+      if negb (rhttp r) then SCont st []
+      else if replied st then SPanic (PMsg (s2b "call to SetResponseStatus after reply"))
+      else SCont (RSt (replied st) n (rheader st)) []
+  | AHeaderIfHTTP k vs =>
+      if negb (rhttp r) then SCont st []
+      else if replied st then SPanic (PMsg (s2b "call to ResponseHeader after reply"))
+      else SCont (RSt (replied st) (status st) (hset k vs (rheader st))) []
   end.
 
 Fixpoint run_script (c : cfg) (r : req) (st : rst) (s : list action) : rst * list pubmsg * option pk :=
